@@ -160,10 +160,12 @@ fn crafted_first(r: &mut Rng, enc: u8, cut: &mut bool) -> Vec<u8> {
         let full = hi == 0 && r.chance(2, 3);
         let n = if full { len as usize } else { r.usize(0, 24) };
         *cut |= n < len as usize;
-        let fill = *r.pick(&[b'A', b' ', 0u8, b'1']);
+        // value bytes are small numbers: when the element is taken for explicit VR they are read as a
+        // length, and a declared length is allocated (and zeroed) before it is read
         if r.chance(1, 4) {
-            out.extend(r.bytes(n));
+            out.extend((0..n).map(|_| *r.pick(&[0u8, 0, 0, 1, 2])));
         } else {
+            let fill = *r.pick(&[0u8, 0, 1, 2]);
             out.extend(std::iter::repeat(fill).take(n));
         }
     } else {
@@ -250,9 +252,11 @@ fn ds_case(r: &mut Rng, thorough: bool) -> String {
         cut = true;
     }
     let declared = if enc == 2 { 2 } else { r.below(2) as u8 };
+    // (the interpreted strategy only on uncrafted data sets: what the date / number parsers accept is
+    // C11/C12's subject, the generator's values are valid)
     let mode = match r.below(10) {
         0 | 1 => 2,
-        2 => 0,
+        2 if !(3..=38).contains(&kind) && !cut => 0,
         _ => 1,
     };
     let flex = read_words(&bytes, declared, true, mode);
@@ -328,6 +332,15 @@ fn main() {
     let a = parse_args();
     quiet_panics();
     let mut out = Out::new();
+    if a.mode == "bytes" {
+        // `c08 bytes <enc 0|1|2> <hex>`: both readings of a given byte string (for findings)
+        let enc: u8 = a.extra[0].parse().unwrap();
+        let bytes = unhex(&a.extra[1]);
+        let flex = read_words(&bytes, enc, true, 1);
+        let fixed = read_words(&bytes, enc, false, 1);
+        out.line(&format!("#0 ds {} {} 1 0 {} | {} | {}", ["i", "e", "b"][enc as usize], enc, hex(&bytes), flex, fixed));
+        return;
+    }
     match a.only {
         None => compat_cases(&mut out, None),
         Some(i) if i >= COMPAT_BASE => {
@@ -338,7 +351,11 @@ fn main() {
     }
     for i in case_indices(&a) {
         let mut r = Rng::for_case(a.seed, i);
+        let t0 = std::time::Instant::now();
         let line = ds_case(&mut r, a.thorough);
+        if std::env::var_os("VERIF_TIMING").is_some() && t0.elapsed().as_millis() > 100 {
+            eprintln!("slow case {} {} ms: {}", i, t0.elapsed().as_millis(), &line[..line.len().min(200)]);
+        }
         out.line(&format!("#{} {}", i, line));
     }
 }
